@@ -26,6 +26,7 @@ import math
 
 import numpy as np
 
+from vmc import bfs
 from vmc import families as F
 from vmc import numerics as N
 from vmc.parallel import run_shards, shard
@@ -33,8 +34,9 @@ from vmc.report import Check
 
 PID = "C04"
 LEVEL = "exploration"
-ENGINE = "E1 exhaustive product: schemes x shapes x matrix families x block lengths"
-RULE = ("Blast/SVDMimo/GMDMimo on every shape 1<=Nt<=Nr<=4, MRC Nr 1..4 (1-D and (Nr,1) channel), "
+ENGINE = "E1 exhaustive product: schemes x shapes x matrix families x block lengths + E3 BFS over object-reuse histories"
+RULE = ("E1: Blast/SVDMimo/GMDMimo on every shape 1<=Nt<=Nr<=4 (all families) and 1<=Nt<=Nr<=6 (thorough 8; "
+        "generic s<24/60 and nearly dependent members), MRC Nr 1..4 (1-D and (Nr,1) channel), "
         "MRT Nt 1..4 (1-D and (1,Nt)), Alamouti Nr 1..4 (and 1-D channel of 2 taps); channels: all "
         "{1,j,-1}-entry matrices with <=6 (thorough 9) entries, all {0,+-1,+-j} matrices with <=4 (thorough 6) "
         "entries, generic family G_s s<30 (thorough 100), nearly dependent members (kappa 1e2,1e4) likewise; "
@@ -42,7 +44,13 @@ RULE = ("Blast/SVDMimo/GMDMimo on every shape 1<=Nt<=Nr<=4, MRC Nr 1..4 (1-D and
         "distinguishable symbols of length layers*{1,2,3} (Alamouti {2,4,6}); noise variances "
         "1,1e-2,..,1e-8 for the filter relations.  A case is non-trivial when the scheme has to undo "
         "a channel that is not a multiple of the identity (Nr*Nt>1); distinct = distinct "
-        "(scheme, channel form, family, member, shape, block count)")
+        "(scheme, channel form, family, member, shape, block count).  "
+        "E3: ONE object per scheme, every history <= depth 4 (thorough 5) over {set_channel_matrix(3 channels "
+        "incl. another shape and a 1-D form), set_noise_var(None|0.0|0.5|0.01) where the scheme has it, encode, "
+        "decode}; in every state decode(H_cur @ encode(d)) == d when the current noise variance is 0/None, "
+        "encode/decode agree with a freshly built object of the current (channel, noise_var), Blast/MRC decode "
+        "equals sqrt(Nt) W_MMSE(H_cur, noise_cur) y from the harness SVD, Nr/Nt/layers follow the current channel; "
+        "states are merged only on identical (object digest incl. any cache, model channel, model noise)")
 
 KAPPA_MAX = 1e4
 C_RT = 1e3          # round trip / energy / ZF:   err <= C * eps * kappa * scale
@@ -80,6 +88,17 @@ def channel_items(tier):
             for kappa in (1e2, 1e4):
                 for s in range(S):
                     yield ("neardep%g" % kappa, s, F.nearly_dependent(s, (nr, nt), kappa))
+    # larger arrays, Nr in 5..6 (thorough ..8): generic and nearly dependent members only.  The GMD
+    # permutation bookkeeping (and any per-column loop) only shows its full behaviour for Nt >= 5.
+    Sb = 60 if thorough else 24
+    for nr in range(5, (8 if thorough else 6) + 1):
+        for nt in range(1, nr + 1):
+            for s in range(Sb):
+                yield ("generic", s, F.generic(s, (nr, nt), True, tag=4))
+            if nt >= 2:
+                for kappa in (1e2, 1e4):
+                    for s in range(Sb // 2):
+                        yield ("neardep%g" % kappa, s, F.nearly_dependent(s, (nr, nt), kappa))
 
 
 def data_vec(L):
@@ -316,12 +335,181 @@ def run_item(chk, fam, member, H):
                                     kappa=1.0 if scalar_equiv else kappa))
 
 
+# ----------------------------------------------------------------------
+# E3: object-reuse histories (one object, setters / encode / decode interleaved)
+# ----------------------------------------------------------------------
+NOISE_ALPH = (None, 0.0, 0.5, 1e-2)
+HAS_NOISE = ("Blast", "MRC", "SVDMimo", "GMDMimo")
+
+
+def hist_channels(scheme):
+    """three channels per scheme: a base one, one of another shape, one of the same shape with other
+    values (given in the scheme's alternative 1-D form where it has one)"""
+    if scheme in ("Blast", "SVDMimo", "GMDMimo"):
+        return [F.generic(1, (3, 2), True, tag=42), F.generic(2, (2, 2), True, tag=42),
+                F.generic(3, (3, 2), True, tag=42)]
+    if scheme == "MRC":
+        return [F.generic(1, (3, 1), True, tag=42), F.generic(2, (2, 1), True, tag=42),
+                F.generic(3, (3,), True, tag=42)]
+    if scheme == "MRT":
+        return [F.generic(1, (1, 3), True, tag=42), F.generic(2, (1, 2), True, tag=42),
+                F.generic(3, (3,), True, tag=42)]
+    return [F.generic(1, (2, 2), True, tag=42), F.generic(2, (3, 2), True, tag=42),
+            F.generic(3, (2,), True, tag=42)]                   # Alamouti
+
+
+def as2d(scheme, h):
+    if h.ndim == 2:
+        return h
+    return h[:, np.newaxis] if scheme == "MRC" else h[np.newaxis, :]
+
+
+def hist_events(scheme):
+    ev = [("chan", i) for i in range(3)]
+    if scheme in HAS_NOISE:
+        ev += [("noise", v) for v in NOISE_ALPH]
+    return ev + [("encode",), ("decode",)]
+
+
+class HState:
+    """the real object plus the harness model of what it must currently represent"""
+    def __init__(self):
+        self.obj = None
+        self.ch = None          # index of the current channel (model)
+        self.noise = 0.0        # current noise variance per the documented setter semantics (model)
+        self.err = None
+
+
+def hist_layers(scheme, H2):
+    return H2.shape[1] if scheme in ("Blast", "SVDMimo", "GMDMimo") else 1
+
+
+def hist_data(scheme, H2):
+    return data_vec(4 if scheme == "Alamouti" else 2 * hist_layers(scheme, H2))
+
+
+def hist_build(scheme, hist):
+    from pyphysim.mimo import mimo as M
+    chans = hist_channels(scheme)
+    st = HState()
+    try:
+        for ev in hist:
+            if ev[0] == "new":
+                st.obj = getattr(M, scheme)(None if ev[1] is None else np.array(chans[ev[1]]))
+                st.ch = ev[1]
+            elif ev[0] == "chan":
+                st.obj.set_channel_matrix(np.array(chans[ev[1]]))
+                st.ch = ev[1]
+            elif ev[0] == "noise":
+                st.obj.set_noise_var(ev[1])
+                st.noise = 0.0 if ev[1] is None else ev[1]
+            else:
+                H2 = as2d(scheme, chans[st.ch])
+                d = hist_data(scheme, H2)
+                x = st.obj.encode(d)
+                if ev[0] == "decode":
+                    st.obj.decode(H2 @ x)
+    except Exception as e:  # noqa  - reported by the invariant with the history as witness
+        st.err = e
+    return st
+
+
+def hist_enabled(scheme, hist, st):
+    if st.err is not None:
+        return []
+    if st.ch is None:
+        return [e for e in hist_events(scheme) if e[0] in ("chan", "noise")]
+    return hist_events(scheme)
+
+
+def last_mutator(hist):
+    for ev in reversed(hist):
+        if ev[0] == "noise":
+            return "after_set_noise_var"
+        if ev[0] == "chan":
+            return "after_set_channel_matrix"
+    return "as_constructed"
+
+
+def hist_invariant(chk, scheme, hist, st):
+    from pyphysim.mimo import mimo as M
+    case = {"part": "history", "scheme": scheme, "history": [list(e) for e in hist]}
+    chk.count("eval_history_states")
+    if st.err is not None:
+        chk.fail((scheme, "history", "exception", type(st.err).__name__, last_mutator(hist[:-1])), case,
+                 observed="%s: %s" % (type(st.err).__name__, st.err), expected="no exception")
+        return
+    if st.ch is None:
+        return
+    when = last_mutator(hist)
+    chk.outcome("history_config", (scheme, st.ch, st.noise))
+    with chk.guard((scheme, "history", when), case):
+        obj = st.obj
+        chans = hist_channels(scheme)
+        H2 = as2d(scheme, chans[st.ch])
+        nr, nt = H2.shape
+        kappa = 1.0 if scheme in ("Alamouti", "MRT") else F.cond(H2)
+        layers = hist_layers(scheme, H2)
+        if (obj.Nr, obj.Nt, obj.getNumberOfLayers()) != (nr, nt, layers):
+            chk.fail((scheme, "history", "dimensions_not_of_current_channel", when), case,
+                     observed=(obj.Nr, obj.Nt, obj.getNumberOfLayers()), expected=(nr, nt, layers))
+            return
+        d = hist_data(scheme, H2)
+        # fresh object of the CURRENT configuration (differential reference)
+        fresh = getattr(M, scheme)(np.array(chans[st.ch]))
+        if scheme in HAS_NOISE:
+            fresh.set_noise_var(st.noise)
+        x = np.asarray(obj.encode(d))
+        xf = np.asarray(fresh.encode(d))
+        if not N.close(x, xf, 1.0, C_RT):
+            chk.fail((scheme, "history", "encode_differs_from_fresh_object", when), case,
+                     observed=N.err(x, xf), expected=0)
+        y = H2 @ xf
+        r = np.asarray(obj.decode(y))
+        rf = np.asarray(fresh.decode(y))
+        k2 = kappa ** 2 if st.noise > 0 else kappa
+        if not N.close(r, rf, k2, C_RT):
+            chk.fail((scheme, "history", "decode_differs_from_fresh_object", when), case,
+                     observed=r[:6], expected=rf[:6],
+                     msg="current noise_var=%r, max err %.3g" % (st.noise, N.err(r, rf)))
+        zf = st.noise == 0 or scheme in ("SVDMimo", "MRT", "Alamouti")
+        if zf:
+            if not N.close(r, d, kappa, C_RT):
+                chk.fail((scheme, "history", "roundtrip", when), case, observed=r[:6], expected=d[:6],
+                         msg="noise-free ZF decode of the current channel does not return the data; "
+                             "max err %.3g" % N.err(r, d))
+        if scheme in ("Blast", "MRC"):
+            # harness-side filter of the current (channel, noise): sqrt(Nt) V diag(s/(s^2+v)) U^H
+            U, sv, Vh = np.linalg.svd(H2, full_matrices=False)
+            Wref = (Vh.conj().T * (sv / (sv ** 2 + st.noise))) @ U.conj().T * math.sqrt(nt)
+            want = (Wref @ y).reshape(-1, order="F")
+            if not N.close(r, want, k2, C_MMSE):
+                chk.fail((scheme, "history", "decode_not_filter_of_current_channel_and_noise", when), case,
+                         observed=r[:6], expected=want[:6], msg="current noise_var=%r" % st.noise)
+        chk.nontriv(("history", scheme, st.ch, st.noise, when))
+
+
+def run_histories(chk, depth):
+    for scheme in ("Blast", "MRC", "SVDMimo", "GMDMimo", "MRT", "Alamouti"):
+        b = bfs.BFS(chk,
+                    build=lambda h, sc=scheme: hist_build(sc, h),
+                    enabled=lambda h, st, sc=scheme: hist_enabled(sc, h, st),
+                    invariant=lambda h, st, sc=scheme: hist_invariant(chk, sc, h, st),
+                    canon=lambda h, st, sc=scheme: (sc, st.ch, st.noise, st.err is None,
+                                                    bfs.digest(st.obj.__dict__ if st.obj is not None else None, 9)),
+                    max_depth=depth, label="hist-" + scheme)
+        b.run([(("new", 0),), (("new", None),)])
+        chk.extra.setdefault("history_states_per_scheme", {})[scheme] = [b.states, b.transitions]
+
+
 def main(chk: Check):
     chk.assume("continuous channel space is covered by the stated finite families only (DESIGN 2.2)")
     chk.assume("Alamouti and MRT are checked on every non-zero channel of their shape (their equivalent "
                "channel is the scalar ||H||_F^2 resp. sum|h|, so rank is irrelevant); all other schemes "
                "on full-column-rank channels with kappa <= 1e4")
     chk.assume("the channel is applied by the harness as H @ encode(d), noise free; decode uses noise_var=0 (ZF)")
+    chk.assume("history part: set_noise_var(None) means 0.0 (documented); negative values (documented ValueError) "
+               "are not part of the event alphabet; SVDMimo.decode ignores the noise variance (ZF always)")
     chk.extra["tolerances"] = {"roundtrip_energy_zf": "err <= %g*2^-52*kappa*scale" % C_RT,
                                "mmse": "err <= %g*2^-52*kappa^2*scale" % C_MMSE,
                                "kappa_max": KAPPA_MAX, "sigma2": list(SIGMA2)}
@@ -336,6 +524,8 @@ def main(chk: Check):
             run_item(c, fam, member, H)
 
     run_shards(chk, worker)
+    run_histories(chk, 5 if chk.tier == "thorough" else 4)
+    chk.require_outcomes("history_config", 40)
     chk.sample({"part": "roundtrip", "scheme": "SVDMimo", "form": "2d", "fam": "unit3", "member": 0,
                 "H": np.ones((2, 1), dtype=complex), "nblk": 1, "kappa": 1.0})
     chk.sample({"part": "roundtrip", "scheme": "Alamouti", "form": "2d", "fam": "generic", "member": 0,
@@ -347,6 +537,10 @@ def main(chk: Check):
 
 def replay(case, chk: Check):
     case = dict(case)
+    if case.get("part") == "history":
+        hist = tuple(tuple(e) for e in case["history"])
+        hist_invariant(chk, case["scheme"], hist, hist_build(case["scheme"], hist))
+        return
     case["H"] = np.asarray(case["H"])
     if case.get("part") == "filters":
         case.pop("sigma2", None)
